@@ -101,3 +101,121 @@ Proof.
 Qed.
 
 End MaskFacts.
+
+(* ---- method fills: ffill / bfill only ever change undefined points, and fill from the nearest defined
+   piece on the respective side *)
+Section MethodFill.
+Context {D : Type} `{Ord D}.
+Notation ser := (list (D * V)).
+Notation stairs := (stairs D).
+
+(* the last defined value among the pieces up to x (cur: the one in force so far) *)
+Fixpoint last_defined (s : bool) (cur : V) (l : ser) (x : D) : V :=
+  match l with
+  | [] => cur
+  | (p, v) :: t => if before s p x then last_defined s (match v with Some _ => v | None => cur end) t x else cur
+  end.
+
+Lemma keys_ffill_from prev (l : ser) : keys (ffill_from prev l) = keys l.
+Proof. revert prev. induction l as [|[p [v|]] t IH]; intros prev; simpl; auto; rewrite IH; reflexivity. Qed.
+
+Lemma lookup_ffill s : forall (l : ser) prev x,
+  lookup s prev (ffill_from prev l) x = last_defined s prev l x.
+Proof.
+  induction l as [|[p [v|]] t IH]; intros prev x; simpl; auto; destruct (before s p x); auto.
+Qed.
+
+Lemma last_defined_unchanged s : forall (l : ser) cur v0 x w,
+  lookup s v0 l x = Some w -> (v0 = cur \/ v0 = None) -> last_defined s cur l x = Some w \/ (lookup s v0 l x = v0 /\ last_defined s cur l x = cur).
+Proof.
+  induction l as [|[p v] t IH]; intros cur v0 x w Hl Hv; simpl in *.
+  - right. auto.
+  - destruct (before s p x) eqn:B; [|right; auto].
+    destruct v as [y|].
+    + destruct (IH (Some y) (Some y) x w Hl (or_introl eq_refl)) as [Hd|[Hd1 Hd2]]; auto.
+      left. rewrite Hd2. rewrite Hd1 in Hl. exact Hl.
+    + destruct (IH cur None x w Hl (or_intror eq_refl)) as [Hd|[Hd1 Hd2]]; auto.
+      rewrite Hd1 in Hl. discriminate.
+Qed.
+
+Theorem ffill_spec (f : stairs) : wf f ->
+  let r := fillna_method FFill f in
+  wf r /\ closed r = closed f /\ minimal r /\
+  (forall sd x, lim sd r x = last_defined (strict_of sd) (init f) (get_values f) x) /\
+  (forall sd x w, lim sd f x = Some w -> lim sd r x = Some w).
+Proof.
+  intros Wf r. subst r. unfold fillna_method. pose proof (wf_sorted_values f Wf) as Hs.
+  destruct (data f) as [fr|] eqn:Df.
+  - assert (Hsf : sorted (ffill_from (init f) (get_values f))) by (unfold sorted; rewrite keys_ffill_from; exact Hs).
+    destruct (canon_values (init f) _ (closed f) Hsf) as (C1 & C2 & C3 & _ & C5).
+    assert (Hl : forall sd x, lim sd (remove_redundant (of_values (init f) (ffill_from (init f) (get_values f)) (closed f))) x
+                              = last_defined (strict_of sd) (init f) (get_values f) x).
+    { intros sd x. rewrite C5. apply lookup_ffill. }
+    repeat split; auto.
+    intros sd x w Hw. rewrite Hl. unfold lim in Hw.
+    destruct (last_defined_unchanged (strict_of sd) (get_values f) (init f) (init f) x w Hw (or_introl eq_refl)) as [Hd|[Hd1 Hd2]]; auto.
+    rewrite Hd2. rewrite Hd1 in Hw. exact Hw.
+  - split; [exact Wf|]. split; [reflexivity|]. split; [unfold minimal, get_values; rewrite Df; exact I|]. split.
+    + intros sd x. unfold lim, get_values. rewrite Df. reflexivity.
+    + intros sd x w Hw. exact Hw.
+Qed.
+
+(* bfill: the first defined value from x on; None when there is none *)
+Fixpoint next_defined (l : ser) : V :=
+  match l with [] => None | (_, Some v) :: _ => Some v | (_, None) :: t => next_defined t end.
+
+Lemma bfill_head (l : ser) : match bfill l with (_, w) :: _ => w | [] => None end = next_defined l.
+Proof.
+  induction l as [|[p [v|]] t IH]; simpl; auto.
+Qed.
+
+Lemma keys_bfill (l : ser) : keys (bfill l) = keys l.
+Proof. induction l as [|[p v] t IH]; simpl; auto. rewrite IH. reflexivity. Qed.
+
+(* the value in force at x, or if undefined the next defined value after it *)
+Fixpoint lookup_next (s : bool) (cur : V) (l : ser) (x : D) : V :=
+  match l with
+  | [] => cur
+  | (p, v) :: t =>
+      if before s p x then lookup_next s (match v with Some _ => v | None => next_defined t end) t x
+      else cur
+  end.
+
+Lemma lookup_bfill s : forall (l : ser) cur x, lookup s cur (bfill l) x = lookup_next s cur l x.
+Proof.
+  induction l as [|[p v] t IH]; intros cur x; simpl; auto.
+  destruct (before s p x); auto. rewrite IH. rewrite bfill_head. reflexivity.
+Qed.
+
+Lemma lookup_next_unchanged s : forall (l : ser) cur v0 x w,
+  lookup s v0 l x = Some w -> (v0 = Some w -> cur = Some w) -> lookup_next s cur l x = Some w.
+Proof.
+  induction l as [|[p v] t IH]; intros cur v0 x w Hl Hc; simpl in *; auto.
+  destruct (before s p x); auto. eapply IH; eauto. intros ->. reflexivity.
+Qed.
+
+Theorem bfill_spec (f : stairs) : wf f ->
+  let r := fillna_method BFill f in
+  wf r /\ closed r = closed f /\ minimal r /\
+  (forall sd x, lim sd r x = lookup_next (strict_of sd) (vfill (init f) (next_defined (get_values f))) (get_values f) x) /\
+  (forall sd x w, lim sd f x = Some w -> lim sd r x = Some w).
+Proof.
+  intros Wf r. subst r. unfold fillna_method. pose proof (wf_sorted_values f Wf) as Hs.
+  destruct (data f) as [fr|] eqn:Df.
+  - assert (Hsf : sorted (bfill (get_values f))) by (unfold sorted; rewrite keys_bfill; exact Hs).
+    set (i := match init f with Some _ => init f | None => match bfill (get_values f) with (_, w) :: _ => w | [] => None end end).
+    assert (Hi : i = vfill (init f) (next_defined (get_values f))).
+    { unfold i. destruct (init f); simpl; auto. apply bfill_head. }
+    destruct (canon_values i _ (closed f) Hsf) as (C1 & C2 & C3 & _ & C5).
+    assert (Hl : forall sd x, lim sd (remove_redundant (of_values i (bfill (get_values f)) (closed f))) x
+                              = lookup_next (strict_of sd) (vfill (init f) (next_defined (get_values f))) (get_values f) x).
+    { intros sd x. rewrite C5, Hi. apply lookup_bfill. }
+    repeat split; auto.
+    intros sd x w Hw. rewrite Hl. unfold lim in Hw.
+    eapply lookup_next_unchanged; eauto. intros ->. reflexivity.
+  - split; [exact Wf|]. split; [reflexivity|]. split; [unfold minimal, get_values; rewrite Df; exact I|]. split.
+    + intros sd x. unfold lim, get_values. rewrite Df. simpl. destruct (init f); reflexivity.
+    + intros sd x w Hw. exact Hw.
+Qed.
+
+End MethodFill.
